@@ -40,13 +40,16 @@ def r_guards(ctx, model):
         sc = Scenario(system="cubic", columns=COLS, rank=rank, resid=resid,
                       kwargs={"ignore_rank": ig_rank, "ignore_residuals": ig_res})
         res = run_fill(model, sc, ctx)
-        want_raise = (rank < 21 and not ig_rank) or (resid == 1000 and not ig_res)
+        # a rank-deficient system has no residuals (numpy.linalg.lstsq returns an empty array then): only the rank refusal applies to it
+        want_raise = (rank < 21 and not ig_rank) or (rank == 21 and resid == 1000 and not ig_res)
         got_raise = res[0] == "raise"
         if got_raise != want_raise or (got_raise and res[1] != "Warning"):
             bad.append(f"rank={rank} resid={resid} ignore_rank={ig_rank} ignore_residuals={ig_res}: "
                        f"{'raises ' + str(res[1]) if got_raise else 'accepts'} (want {'refusal' if want_raise else 'acceptance'})")
         if got_raise and dict(res[2].cols) != res[3]:
             untouched.append(f"rank={rank} resid={resid}: columns changed before the refusal")
+        if sc.misfit_axis and not any("misfit" in b_ for b_ in bad):
+            bad.append(f"the number compared with residual_atol is the squared misfit {sc.misfit_axis}, not the misfit of each volume over the equations (what lstsq reports)")
     # the same table with every one of the 21 components supplied (no shortcut past the consistency test)
     for rank, resid, ig_rank, ig_res in ((21, 1000, False, False), (21, 0, False, False), (21, 1000, False, True)):
         n += 1
